@@ -54,3 +54,24 @@ M.contract('xtuml.consistency_check.check_association_integrity', [('m', MM), ('
            loops={0: Loop(inv={'sum-so-far': 'res == assoc_sum(m, norm_rel(old(rel_id)), _i)',
                                'rel-normalised': 'rel_id == norm_rel(old(rel_id))',
                                'iterates-associations': '_seq == m.associations'})})
+
+# ---- uniqueness check: the loop counting null identifying values (fragment contract: loop 3 of check_uniqueness_constraint,
+#      from arbitrary values of its live variables; the function as a whole is covered by the bounded tier)
+M.uninterpreted('attr_value', [INST, STR], VAL)
+M.klass('Class', getattr='builtins.getattr@Class')
+M.contract('builtins.getattr@Class', [('obj', INST), ('name', STR)], returns=VAL, trusted=True,
+           reason='PY-6: attribute read of an instance under any spelling (contracts.c10 proves Class.__getattr__ against it)',
+           ensures={'value': 'result == attr_value(obj, name)'}, modifies=[])
+M.spec('''
+def is_null_id(v, ty):
+    return v is None or (upper(ty) == 'UNIQUE_ID' and not v)
+
+def null_prefix(mc, inst, k):
+    return 0 if k <= 0 else null_prefix(mc, inst, k - 1) + (1 if (mc.attributes[k - 1][0] in mc.identifying_attributes and is_null_id(attr_value(inst, mc.attributes[k - 1][0]), mc.attributes[k - 1][1])) else 0)
+''', sorts={'null_prefix': ([MC, INST, INT], INT, ['MetaClass.attributes', 'MetaClass.identifying_attributes'])})
+M.contract('xtuml.consistency_check.check_uniqueness_constraint@null-values-loop',
+           [('metaclass', MC), ('inst', INST), ('res', INT)], returns=None,
+           requires={'metaclass': 'metaclass is not None and inst is not None'},
+           ensures={'counts-null-identifying-values': 'res == old(res) + null_prefix(metaclass, inst, len(metaclass.attributes))'},
+           modifies=[], ghost={'fragment': {'loop': 3}},
+           loops={3: Loop(inv={'count-so-far': 'res == old(res) + null_prefix(metaclass, inst, _i)', 'iterates': '_seq == metaclass.attributes'})})
